@@ -5,10 +5,10 @@ Reads the artefacts left by tools/twin_eval.sh (.demo_out_*.txt, .check_Cxx.txt)
 import argparse, json, os, re, shutil, glob
 
 ap = argparse.ArgumentParser()
-ap.add_argument("wt"); ap.add_argument("name"); ap.add_argument("pid"); ap.add_argument("--note", default="")
+ap.add_argument("wt"); ap.add_argument("name"); ap.add_argument("pid"); ap.add_argument("--note", default=""); ap.add_argument("--suffix", default=""); ap.add_argument("--round", default="twins-2")
 a = ap.parse_args()
 src = os.path.join(a.wt, "_twin", a.name)
-dst = os.path.join("/verif/twins", f"{a.pid}-{a.name}")
+dst = os.path.join("/verif/twins", f"{a.pid}-{a.name}{a.suffix}")
 os.makedirs(dst, exist_ok=True)
 for f in ("patch.diff", "demo.py", "notes.md"):
     if os.path.exists(os.path.join(src, f)):
@@ -39,10 +39,11 @@ def rc(tag):
 meta = {
     "property": a.pid,
     "twin": a.name,
+    "round": a.round,
     "origin": "behaviour-preserving refactoring written by an independent sub-agent that was given only the property text and a scratch worktree (nothing from /verif)",
     "what_i_ran": {
         "demo": "PYTHONPATH=<worktree> /venv/bin/python demo.py : exit 0 on the pristine worktree AND with patch.diff applied (tools/twin_eval.sh)",
-        "suite": "complete baseline suite in a fresh worktree with the patch applied (tools/seed_fullsuite.sh)",
+        "suite": "complete baseline suite in a fresh worktree with the patch applied (tools/seed_fullsuite.sh)" if suite else "not run for this refactoring (the demo compares the outputs of both trees)",
         "suite_result": suite,
         "checks": "VERIF_REPO=<patched worktree> /verif/check Cxx for all 20 properties",
     },
